@@ -80,26 +80,38 @@ fn c18_get_memory_region() {
     }
 }
 
-/// A concrete (offset, size) that must not yield a region, on a 32-byte memory with symbolic
-/// contents: length and every byte unchanged.
-fn untouched_case(offset: U256, size: U256, empty: bool) {
+/// size == 0 with a concrete offset on a 32-byte memory with symbolic contents: Ok(None),
+/// length and every byte unchanged.
+fn empty_region_case(offset: U256) {
     let init: [u8; 96] = kani::any();
     let mut mem = grown(32, &init);
-    let r = get_memory_region(&mut mem, offset, size);
-    if empty {
-        assert!(matches!(r, Ok(None)));
-    } else {
-        match &r {
-            Err(e) => assert!(e.exit_code().value() == 38),
-            _ => assert!(false),
-        }
-    }
+    let r = get_memory_region(&mut mem, offset, U256::zero());
+    assert!(matches!(r, Ok(None)));
     assert!(mem.len() == 32);
     let q: usize = kani::any();
     if q < 32 {
         assert!(mem[q] == init[q]);
-        kani::cover!(init[q] == 0xAA && empty);
-        kani::cover!(init[q] == 0xAA && !empty);
+        kani::cover!(init[q] == 0xAA);
+    }
+}
+
+/// A concrete rejected (offset, size) on a 32-byte memory: exit code 38, length unchanged and
+/// every byte still zero.  The memory is all-zero here, not symbolic: a single symbolic byte in
+/// the 4 KiB page object together with the error path (String + ActorError construction)
+/// does not finish (> 300 CPU-s, 3-8 GB, see NOTES.md), with concrete contents it takes 10 s.
+fn rejected_case(offset: U256, size: U256) {
+    let mut mem = Memory::default();
+    mem.grow(32);
+    let r = get_memory_region(&mut mem, offset, size);
+    match &r {
+        Err(e) => assert!(e.exit_code().value() == 38),
+        _ => assert!(false),
+    }
+    assert!(mem.len() == 32);
+    let q: usize = kani::any();
+    if q < 32 {
+        assert!(mem[q] == 0);
+        kani::cover!(q == 31);
     }
 }
 
@@ -151,56 +163,93 @@ fn c18_get_memory_region_grow_more() {
     grow_case(32, 33, 31);
 }
 
-/// No region (empty / rejected) on DIRTY memory: one concrete representative per class; the
-/// classes themselves are covered exhaustively by c18_get_memory_region on empty memory.
+/// No region on a NON-EMPTY memory, one concrete representative per class (the classes are
+/// covered exhaustively on the empty memory by c18_get_memory_region).
 #[kani::proof]
 #[kani::unwind(40)]
 fn c18_get_memory_region_untouched() {
     let m32 = 0xFFFF_FFFFu64;
-    untouched_case(U256([u64::MAX; 4]), U256::zero(), true); // empty region at offset 2^256-1
-    untouched_case(U256::zero(), U256([m32 + 1, 0, 0, 0]), false); // size 2^32
-    untouched_case(U256::zero(), U256([1, 0, 0, 1]), false); // size 2^192+1 (low limbs small)
-    untouched_case(U256([0, 1, 0, 0]), U256::from(1u64), false); // offset 2^64 (low limb 0)
-    untouched_case(U256([m32, 0, 0, 0]), U256::from(1u64), false); // offset + size = 2^32
+    empty_region_case(U256([u64::MAX; 4])); // empty region at offset 2^256-1
+    empty_region_case(U256::from(5u64));
+    rejected_case(U256::zero(), U256([m32 + 1, 0, 0, 0])); // size 2^32
+    rejected_case(U256::zero(), U256([1, 0, 0, 1])); // size 2^192+1 (low limbs small)
+    rejected_case(U256([0, 1, 0, 0]), U256::from(1u64)); // offset 2^64 (low limb 0)
+    rejected_case(U256([m32, 0, 0, 0]), U256::from(1u64)); // offset + size = 2^32
 }
 
 // ---- EXPERIMENTS (to be removed)
-fn untouched_case3(offset: U256, size: U256, empty: bool) {
+fn marker_mem() -> (Memory, u8) {
     let mut mem = Memory::default();
     mem.grow(32);
     let m0: u8 = kani::any();
-    let m31: u8 = kani::any();
     mem[0] = m0;
-    mem[31] = m31;
-    let r = get_memory_region(&mut mem, offset, size);
-    if empty {
-        assert!(matches!(r, Ok(None)));
-    } else {
-        match &r {
-            Err(e) => assert!(e.exit_code().value() == 38),
-            _ => assert!(false),
-        }
-    }
-    assert!(mem.len() == 32);
+    (mem, m0)
+}
+fn readback(mem: &Memory, m0: u8) {
     let q: usize = kani::any();
     if q < 32 {
-        assert!(mem[q] == if q == 0 { m0 } else if q == 31 { m31 } else { 0 });
-        kani::cover!(q == 31 && m31 == 0xAA && empty);
-        kani::cover!(q == 0 && m0 == 0xAA && !empty);
+        assert!(mem[q] == if q == 0 { m0 } else { 0 });
+        kani::cover!(q == 0 && m0 == 0xAA);
     }
 }
 #[kani::proof]
 #[kani::unwind(40)]
-fn u9() {
-    untouched_case3(U256::zero(), U256([1, 0, 0, 1]), false);
-    untouched_case3(U256([u64::MAX; 4]), U256::zero(), true); // empty region at offset 2^256-1
+fn p1() {
+    let (mem, m0) = marker_mem();
+    let r: Result<u32, _> = U256([1, 0, 0, 1]).try_into();
+    assert!(r.is_err());
+    readback(&mem, m0);
 }
 #[kani::proof]
 #[kani::unwind(40)]
-fn u10() {
-    untouched_case3(U256([u64::MAX; 4]), U256::zero(), true); // empty region at offset 2^256-1
-    untouched_case3(U256::zero(), U256([0x1_0000_0000, 0, 0, 0]), false); // size 2^32
-    untouched_case3(U256::zero(), U256([1, 0, 0, 1]), false); // size 2^192+1 (low limbs small)
-    untouched_case3(U256([0, 1, 0, 0]), U256::from(1u64), false); // offset 2^64 (low limb 0)
-    untouched_case3(U256([0xFFFF_FFFF, 0, 0, 0]), U256::from(1u64), false); // offset + size = 2^32
+fn p2() {
+    let (mem, m0) = marker_mem();
+    let e = fil_actors_runtime::ActorError::unchecked(EVM_CONTRACT_ILLEGAL_MEMORY_ACCESS, "size must be less than max u32".into());
+    assert!(e.exit_code().value() == 38);
+    readback(&mem, m0);
+}
+#[kani::proof]
+#[kani::unwind(40)]
+fn p3() {
+    use fil_actors_runtime::AsActorError;
+    let (mem, m0) = marker_mem();
+    let r = 0xFFFF_FFFFu32.checked_add(1).context_code(EVM_CONTRACT_ILLEGAL_MEMORY_ACCESS, "new memory size exceeds max u32");
+    assert!(r.is_err());
+    readback(&mem, m0);
+}
+#[kani::proof]
+#[kani::unwind(40)]
+fn q1() {
+    let (mut mem, m0) = marker_mem();
+    let r = get_memory_region(&mut mem, U256::zero(), U256([1, 0, 0, 1]));
+    assert!(r.is_err());
+    assert!(mem.len() == 32);
+    kani::cover!(m0 == 0xAA);
+}
+#[kani::proof]
+#[kani::unwind(40)]
+fn q2() {
+    let mut mem = Memory::default();
+    mem.grow(32);
+    let r = get_memory_region(&mut mem, U256::zero(), U256([1, 0, 0, 1]));
+    assert!(r.is_err());
+    readback(&mem, 0);
+}
+fn head_only(mem: &mut Memory, size: impl TryInto<u32>) -> Result<Option<crate::interpreter::instructions::memory::MemoryRegion>, fil_actors_runtime::ActorError> {
+    let size: u32 = size.try_into().map_err(|_| {
+        fil_actors_runtime::ActorError::unchecked(EVM_CONTRACT_ILLEGAL_MEMORY_ACCESS, "size must be less than max u32".into())
+    })?;
+    if size == 0 {
+        return Ok(None);
+    }
+    mem.grow(size as usize);
+    Ok(None)
+}
+#[kani::proof]
+#[kani::unwind(40)]
+fn q3() {
+    let (mut mem, m0) = marker_mem();
+    let r = head_only(&mut mem, U256([1, 0, 0, 1]));
+    assert!(r.is_err());
+    readback(&mem, m0);
 }
